@@ -16,7 +16,8 @@ RULE = ("Hypothesis draws an algebraic program over {+, -, unary -, c*, *c, /c, 
         "complex); ~12% of programs contain a deliberately shape-incompatible binary node. Oracle: the same program "
         "evaluated with NumPy on the reference matrices (never simplified); incompatible programs must raise. "
         "Non-trivial: >=2 operations, or one operation involving a complex/negative/NumPy scalar, an array operand, an "
-        "Identity/ScalarMul/Diagonal operand, or a mismatch.")
+        "Identity/ScalarMul/Diagonal operand, or a mismatch (incl. Kronecker sums of non-square operands whose shapes "
+        "compensate, a x b with b x a).")
 ASSUMPTIONS = [
     "expected dtype = numpy result_type over leaf dtypes; Python/NumPy scalars contribute only their kind (real/complex)",
     "c / A is read as c * inv(A); a raised TypeError/NotImplementedError is accepted as a refusal, any other value is a violation",
@@ -118,11 +119,20 @@ class AlgGen(gen.TreeGen):
             node = {"k": "prod", "via": "op" if kind == "prod" else "ctor", "ch": [self.op(r, k1, d), self.op(k2, c, d)]}
         else:
             n = self.integer(1, 4)
-            bad = self.op(r, r + self.pick([1, 2]), d)
-            ch = [self.op(n, n, d), bad]
+            if self.integer(1, 3) == 1:
+                # two non-square operands whose shapes compensate (a x b with b x a): the assembled shape would be square
+                a = self.integer(1, 4)
+                b = a + self.pick([1, 2, 3])
+                ch = [self.op(a, b, d), self.op(b, a, d)]
+                if self.boolean():
+                    ch.append(self.op(n, n, d))
+                kind += ":compensating"
+            else:
+                bad = self.op(r, r + self.pick([1, 2]), d)
+                ch = [self.op(n, n, d), bad]
             if self.boolean():
                 ch.reverse()
-            node = {"k": "kronsum", "via": "fn" if kind == "kronsum" else "ctor", "ch": ch}
+            node = {"k": "kronsum", "via": "fn" if kind.startswith("kronsum:") or kind == "kronsum" else "ctor", "ch": ch}
         for _ in range(self.integer(0, 2)):
             w = self.pick(["scale", "neg", "T", "kron", "bd", "H"])
             if w == "scale":
